@@ -86,7 +86,7 @@ impl serde::Serialize for Record {
     }
 }
 
-#[derive(Clone, Debug, PartialEq, Eq, Hash)]
+#[derive(Clone, Debug, PartialEq, Eq)]
 pub enum Value {
     Str(String),
     // Consider big int
@@ -98,6 +98,31 @@ pub enum Value {
     Obj(im::HashMap<String, Value>),
     Array(Vec<Value>),
     None,
+}
+
+// Equal values must hash equally: im::HashMap hashes its entries in its own private iteration
+// order, so two equal objects would otherwise land in different groups of `count by obj` /
+// `count_distinct(obj)`. Hash the entries in key order instead.
+impl std::hash::Hash for Value {
+    fn hash<H: std::hash::Hasher>(&self, state: &mut H) {
+        std::mem::discriminant(self).hash(state);
+        match self {
+            Value::Str(s) => s.hash(state),
+            Value::Int(i) => i.hash(state),
+            Value::Float(f) => f.hash(state),
+            Value::Bool(b) => b.hash(state),
+            Value::DateTime(dt) => dt.hash(state),
+            Value::Duration(d) => d.hash(state),
+            Value::Obj(map) => {
+                for (k, v) in map.iter().sorted_by(|l, r| l.0.cmp(r.0)) {
+                    k.hash(state);
+                    v.hash(state);
+                }
+            }
+            Value::Array(v) => v.hash(state),
+            Value::None => {}
+        }
+    }
 }
 
 impl serde::Serialize for Value {
